@@ -562,6 +562,7 @@ MODNAME = "mc.props.c10"
 AFTER_ENC = ":after an earlier htmlentityreplace encode in the process"
 AFTER_CASE = ":after an earlier case in the process"
 MAX_PRELUDE_SEARCHES = 6  # per job
+_HIST = __import__("collections").deque(maxlen=40)  # the last cases of this process (across jobs)
 
 
 def report_grid(s, viol, st, I, hist):
@@ -578,10 +579,13 @@ def report_grid(s, viol, st, I, hist):
                 st.extra["failures_not_located"] = st.extra.get("failures_not_located", 0) + 1
                 continue
             I["prelude_searches"] = I.get("prelude_searches", 0) + 1
-            pre = core.find_prelude(MODNAME, case, [{"s": h, "seed": I["seed"]} for h in hist])
+            # candidates, most likely first: the same string run completely (the worker may have met its
+            # characters long ago, in an earlier job), then the most recent cases of this process
+            cands = [{"s": h, "seed": I["seed"]} for h in hist if h != s] + [{"s": s, "seed": I["seed"]}]
+            pre = core.find_prelude(MODNAME, case, cands)
             if pre is None:
                 st.extra.setdefault("harness_errors", []).append(
-                    "failure seen in the worker reproduces neither alone nor after one of the last %d cases: %s %r" % (len(hist), full, case)
+                    "failure seen in the worker reproduces neither alone, nor after the same string run completely, nor after one of the last %d cases: %s %r" % (len(hist), full, case)
                 )
                 memo[full] = "lost"
                 continue
@@ -751,11 +755,9 @@ def run_job(job):
         check_sequences([tuple(x) for x in job["pairs"]], seed, st)
         st.extra["worker_wall_s_seq"] = round(time.time() - t0, 1)
         return st
-    import collections
-
     I = impl(seed)
     I["seed"] = seed
-    I["hist"] = collections.deque(maxlen=48)
+    I["hist"] = _HIST
     I["prelude_searches"] = 0
     I["prelude_memo"] = {}
     I["dec_templates"] = BOUNDS[tier]["decode_template_routes"]
